@@ -250,6 +250,13 @@ OPT_INVALID = [
 # (grid_file / plot_* ARE read by hypnotoad-geqdsk and are therefore not "unknown")
 OPT_UNKNOWN = [{"nx_cor": 4}, {"target_poloidal_spacing_length": 1}, {"Orthogonal": True},
                {"finecontour_nfine": 50}, {"y_boundary_guard": 1}, {"psinorm_edge": 1.1}]
+# options of the other geometry: unknown to this entry point (a realistic slip: `ny` in a
+# tokamak file), and known to code that an earlier run in the same interpreter executed
+OPT_UNKNOWN_OTHER = {"geqdsk": [{"ny": 8}, {"nx": 4}, {"r_inner": 0.1}, {"R0": 1.0},
+                                {"q_coefficients": [2.5]}],
+                     "circular": [{"nx_core": 3}, {"psinorm_sol": 1.1}, {"ny_sol": 8},
+                                  {"xpoint_poloidal_spacing_length": 0.05},
+                                  {"reverse_current": True}]}
 # an equilibrium option changed between building the equilibrium and building the mesh:
 # differences of every size count, from a flipped bool down to the last digits of a tiny
 # tolerance (a comparison "to within rounding" must not equate 1e-12 with 1e-13)
@@ -449,6 +456,10 @@ def make_case(rng, key, kind=None, entry=None, geom=None):
         pass  # the fragments are chosen by the caller's stratification (combo_case)
     elif kind == "opt_unknown":
         f.update({"extra": dict(rng.choice(OPT_UNKNOWN))})
+        if rng.random() < 0.6:
+            f.update({"extra": dict(rng.choice(OPT_UNKNOWN_OTHER[entry]))})
+            # ... after a valid run of the other entry point in the same interpreter
+            f["prelude"] = rng.choice((True, True, False))
     elif kind == "opt_invalid":
         bad = dict(rng.choice(OPT_INVALID))
         if entry in ("circular", "api-circ"):
@@ -506,8 +517,13 @@ def run_case(case, keep_log=False):
         options["number_of_processors"] = np_
     if kind in ("opt_unknown", "opt_invalid", "envelope"):
         options.update(f["extra"])
-    d = engines.scratch_dir()
     counters = {}
+    if f.get("prelude"):
+        other = "circular" if entry == "geqdsk" else "geqdsk"
+        pre = make_case(random.Random(case["sched_seed"]), case["sched_seed"], kind="none",
+                        entry=other, geom="lsn")
+        counters["prelude"] = run_case(pre)["outcome"][0]
+    d = engines.scratch_dir()
     try:
         seams = []
         bug = faults.Buggify(f["buggify"]) if f.get("buggify") else None
